@@ -82,7 +82,8 @@ def check_kernel_choice(ctx, ck, rule='R-DEP.kernel-choice'):
                 continue
         n += 1
         dep = [t_ for t_, (b, cs) in bases.items() if any(isinstance(x_, ast.Name) and x_.id == kname for x_ in ast.walk(b))]
-        ok = len(bases) == 1 and not dep
+        by_k = len(bases) > 1 and any(cs for t_, (b, cs) in bases.items())
+        ok = not dep and not by_k
         why = 'exact-kernel pairs: %s' % sorted(bases)[0][:80]
         if not ok:
             why = ('the pairs integrated with the exact kernel differ with the image index: %s' % '; '.join(
